@@ -228,6 +228,16 @@ func gen(g *core.G) {
 		}
 	}
 
+	// the case family (ci-Enums next to strings / Enums / Patterns that differ in case only): every pair against every spelling of the words
+	for _, a := range lat.CaseFamily() {
+		for _, b := range lat.CaseFamily() {
+			for _, w := range lat.CaseFamilyStrings() {
+				if g.Thorough() || g.Rng.Intn(3) == 0 {
+					g.Emit("sound " + a.String() + " " + b.String() + " " + lat.VS(w).String())
+				}
+			}
+		}
+	}
 	// the Callable types (no value of the value language is a lambda): acceptance of a sample of the pairs
 	for _, a := range lat.CallableUniverse() {
 		for _, b := range lat.CallableUniverse() {
